@@ -18,7 +18,10 @@ impl<const N:usize, const SIZE: usize> MemBuilder for StackN<N, SIZE>{
 
     #[inline]
     fn build(&mut self, element_layout: Layout) -> Self::Mem {
-        assert!(N*element_layout.size() <= SIZE, "Insufficient storage!");
+        assert!(
+            N.checked_mul(element_layout.size()).map_or(false, |bytes| bytes <= SIZE),
+            "Insufficient storage!"
+        );
         StackNMem{
             mem: MaybeUninit::uninit(),
             element_layout
